@@ -1,5 +1,11 @@
 package rules
 
+import (
+	"go/types"
+
+	"golang.org/x/tools/go/ssa"
+)
+
 func init() {
 	Register("C02", C02)
 	Register("C04", C04)
@@ -68,13 +74,25 @@ func c02FieldsSorted(e *Env) {
 		e.R.Undecide("R02.4", key, "anchor not found")
 		return
 	}
-	n := 0
-	for _, c := range callsIn(fn, false) {
-		if f := c.Common().StaticCallee(); f != nil && f.Origin() != nil && f.Origin().Name() == "Iterate" && f.Origin().Pkg != nil && f.Origin().Pkg.Pkg.Path() == e.P.ModPath+"/internal/pkg/maps" {
-			n++
+	n, rawRange := 0, false
+	mapsPkg := e.P.ModPath + "/internal/pkg/maps"
+	allInstrs(fn, func(_ *ssa.Function, ins ssa.Instruction) {
+		switch x := ins.(type) {
+		case ssa.CallInstruction:
+			if f := x.Common().StaticCallee(); f != nil && f.Origin() != nil && f.Origin().Pkg != nil && f.Origin().Pkg.Pkg.Path() == mapsPkg && (f.Origin().Name() == "Iterate" || f.Origin().Name() == "Keys") {
+				if len(x.Common().Args) > 0 {
+					if _, isP := x.Common().Args[0].(*ssa.Parameter); isP {
+						n++
+					}
+				}
+			}
+		case *ssa.Range:
+			if _, isMap := x.X.Type().Underlying().(*types.Map); isMap {
+				rawRange = true
+			}
 		}
-	}
-	e.R.Check(n == 1, "R02.4", key, "fields are visited through maps.Iterate (sorted keys; engine M decides that no raw map range exists)")
+	})
+	e.R.Check(n >= 1 && !rawRange, "R02.4", key, "fields are visited through the sorted keys of package maps (maps.Iterate or a range over maps.Keys of the fields parameter) and never by a raw map range")
 }
 
 func C04(e *Env) {
